@@ -233,6 +233,15 @@ impl CommitOracle {
 		}
 	}
 
+	/// (entries in the map, kept_since, commits_since_gc) — verification read-out.
+	#[cfg(surrealkv_verif)]
+	pub(crate) fn verif_state(&self) -> (Vec<(u64, u64)>, u64, u32) {
+		let g = self.inner.lock();
+		let mut entries: Vec<(u64, u64)> = g.recent_writes.iter().map(|(k, v)| (*k, *v)).collect();
+		entries.sort_unstable();
+		(entries, g.kept_since, g.commits_since_gc)
+	}
+
 	#[cfg(test)]
 	pub(crate) fn len(&self) -> usize {
 		self.inner.lock().recent_writes.len()
